@@ -50,6 +50,16 @@ CMR_ERROR recognizeSeriesParallel(
   fprintf(stderr, "Read %zux%zu matrix with %zu nonzeros in %f seconds.\n", matrix->numRows, matrix->numColumns,
     matrix->numNonzeros, (clock() - readClock) * 1.0 / CLOCKS_PER_SEC);
 
+  /* The series-parallel algorithms require binary or ternary input, respectively. */
+
+  if (binary ? !CMRchrmatIsBinary(cmr, matrix, NULL) : !CMRchrmatIsTernary(cmr, matrix, NULL))
+  {
+    fprintf(stderr, "Input error: matrix is not %s.\n", binary ? "binary" : "ternary");
+    CMR_CALL( CMRchrmatFree(cmr, &matrix) );
+    CMR_CALL( CMRfreeEnvironment(&cmr) );
+    return CMR_ERROR_INPUT;
+  }
+
   /* Run the search. */
 
   CMR_SP_REDUCTION* reductions = NULL;
